@@ -65,7 +65,10 @@ class IntProperty(PropertyProtocol):
             except ValueError:
                 return PropertyError(f"Invalid int value: {converted}")
         if isinstance(converted, float):
-            as_int = int(converted)
+            try:
+                as_int = int(converted)
+            except (OverflowError, ValueError):  # inf / nan
+                return PropertyError(f"Invalid int value: {value}")
             if converted == as_int:
                 converted = as_int
         if isinstance(converted, int) and not isinstance(converted, bool):
